@@ -2634,6 +2634,15 @@ func lastIndexRule(r *Report, rels ...string) {
 				base, idx = x.X, x.Index
 			case *ssa.Index:
 				base, idx = x.X, x.Index
+			case *ssa.Slice:
+				// x[:len(x)-k] (dropping a trailing separator): the same obligation for the upper bound
+				if x.High == nil {
+					continue
+				}
+				base, idx = x.X, x.High
+				if hb, isB := idx.(*ssa.BinOp); !isB || hb.Op != token.SUB {
+					continue
+				}
 			default:
 				continue
 			}
@@ -3363,6 +3372,21 @@ func setterStoresRule(r *Report, rel, typ, method, field, consequence string) {
 		}
 	}
 	r.Decide("flow", key+" stores its argument in "+field, ok, "the parameter reaches the field", "the setter does not store its argument in "+field+": "+consequence, fn.Pos())
+	// ... for every argument: a result-less setter has no path that leaves the field as it was (an
+	// "ignored when empty" clause keeps the previous value where the caller configured a new one)
+	if ok && fn.Signature.Results().Len() == 0 {
+		g := G(fn)
+		isStore := func(i ssa.Instruction) bool {
+			st, isSt := i.(*ssa.Store)
+			if !isSt {
+				return false
+			}
+			fa, isFa := st.Addr.(*ssa.FieldAddr)
+			return isFa && fieldObj(fa).Name() == field
+		}
+		skip := g.PathTo([]ssa.Instruction{g.Entry()}, true, isStore, isReturn)
+		r.Decide("path", key+" stores "+field+" on every call", skip == nil, "the store lies on every path to the return", "the setter can return without storing (a special case for an empty or zero argument): what was configured before stays in force although the caller configured something else: "+consequence, fn.Pos())
+	}
 }
 
 // guardedFieldsRule: the named fields of a module struct are read with the
@@ -4042,4 +4066,72 @@ func newHelperWithin(w *World, c ssa.CallInstruction, want map[string]bool, norm
 		}
 	}
 	return true
+}
+
+// typedNilFieldRule: a struct field of interface type that the code compares
+// with nil is never given a pointer-typed parameter boxed into the interface:
+// a nil pointer passed to such a setter makes the field a non-nil interface
+// holding nil, the `!= nil` guards pass, and the first method call through it
+// dereferences nil (or, worse, takes a branch meant for "configured").
+func typedNilFieldRule(r *Report, rels ...string) {
+	w := r.W
+	n := 0
+	for _, f := range w.Funcs(rels...) {
+		for _, in := range instrs(f) {
+			st, ok := in.(*ssa.Store)
+			if !ok {
+				continue
+			}
+			fa, isFa := st.Addr.(*ssa.FieldAddr)
+			if !isFa {
+				continue
+			}
+			if _, isI := fieldObj(fa).Type().Underlying().(*types.Interface); !isI {
+				continue
+			}
+			for _, l := range resolveAll(st.Val) {
+				mi, isMi := l.(*ssa.MakeInterface)
+				if !isMi {
+					continue
+				}
+				if _, isPtr := mi.X.Type().Underlying().(*types.Pointer); !isPtr {
+					continue
+				}
+				isParam := false
+				for _, p := range f.Params {
+					if isParamVal(mi.X, p) {
+						isParam = true
+					}
+				}
+				if !isParam {
+					continue
+				}
+				// is the field nil-tested anywhere in the module?
+				tested := false
+				for _, g := range w.fns {
+					for _, gi := range instrs(g) {
+						b, isB := gi.(*ssa.BinOp)
+						if !isB || (b.Op != token.EQL && b.Op != token.NEQ) || !(isNilConst(b.X) || isNilConst(b.Y)) {
+							continue
+						}
+						other := b.X
+						if isNilConst(b.X) {
+							other = b.Y
+						}
+						if ld, isLd := other.(*ssa.UnOp); isLd && ld.Op == token.MUL {
+							if fa2, isFa2 := ld.X.(*ssa.FieldAddr); isFa2 && fieldObj(fa2) == fieldObj(fa) {
+								tested = true
+							}
+						}
+					}
+				}
+				n++
+				r.Touch(f)
+				r.Decide("flow", fmt.Sprintf("%s: %s.%s is not given a boxed pointer parameter", fnName(f), namedOf(fa.X.Type()), fieldObj(fa).Name()), !tested, "the field is never compared with nil", "a pointer parameter is stored in the interface-typed field "+fieldObj(fa).Name()+", which the code compares with nil: a nil pointer passed in (an unset option) is a non-nil interface, the guard passes, and the branch for a configured value is taken with nothing behind it", st.Pos())
+			}
+		}
+	}
+	if n == 0 {
+		r.Hold("flow", fmt.Sprintf("interface-typed fields in %v", rels), "no pointer parameter is boxed into an interface-typed field")
+	}
 }
